@@ -4,7 +4,7 @@ import json, subprocess
 meta = json.load(open('/verif/manifest_meta.json'))
 ids = [json.loads(l)['id'] for l in open('/verif/properties.jsonl')]
 hooks = subprocess.run(['git', '-C', '/repo', 'log', '--format=%H %s'], capture_output=True, text=True).stdout.strip().split('\n')
-hook_commits = [l.split()[0] for l in hooks if 'verif hooks' in l]
+hook_commits = [l.split()[0] for l in hooks if 'verif hooks' in l or 'uncommitted hook changes' in l]
 checks, na = [], []
 for i in ids:
     m = meta.get(i, {})
